@@ -8,7 +8,8 @@ import Rare.Drv.C08Time
 /-!
 Line-protocol ops of C08:
 
-* `expr <opt> <template> <elems> <keys>` – the shared op (standard registry);
+* `expr <opt> <template> <elems> <keys>` – the shared op; in this driver with `format` and the UTC-only part of the time
+  helpers modelled as well (`registryE`);
 * `exprw <color 0|1> <unicode 0|1> <noload 0|1> <path> <content | x> <opt> <template> <elems> <keys>` – the
   same with `color`, `bar`, `load`, `json` modelled (`Funcs/Extra.lean`) in the world described by the first
   five fields: the two package switches, `stdlib.DisableLoad`, and a file system with one readable file
@@ -41,6 +42,12 @@ def registryT (tw : Funcs.TimeW.TimeWorld) : Registry :=
   mkRegistry (stdTable ++ Funcs.Extra.table (world false false false [] none) ++ Funcs.TimeW.table tw ++ formatTable)
     Gen.stdFunctionNames
 
+/-- The registry of the shared `expr` op in THIS driver: the standard table plus `format` and the time helpers in
+    the empty time world (rare's own UTC needs no oracle; any other zone, `auto` / `cache` and the wall clock
+    answer `unmodelled …`). -/
+def registryE : Registry :=
+  mkRegistry (stdTable ++ Funcs.TimeW.table (Rare.Drv.C08Time.world {}) ++ formatTable) Gen.stdFunctionNames
+
 def decInts (s : String) : Option (List Int) :=
   if s = "." then some [] else (s.splitOn ",").mapM String.toInt?
 
@@ -64,6 +71,13 @@ def handle (args : List String) : String :=
         Rare.Drv.Expr.evalWith (registryT (Rare.Drv.C08Time.world tabs)) (o == "1") tc (Rare.Drv.Expr.mkCtx elems keys)
       | none => "bad-args"
     | _, _, _, _ => "bad-args"
+  | ["expr", o, t, el, ks] =>
+    match Hex.dec t, decHexList el, decHexList ks with
+    | some tb, some elems, some keys =>
+      match Rare.Drv.Expr.decodeTemplate tb with
+      | some tc => Rare.Drv.Expr.evalWith registryE (o == "1") tc (Rare.Drv.Expr.mkCtx elems keys)
+      | none => "bad-args"
+    | _, _, _ => "bad-args"
   | ["gm", l, ix, i] =>
     match Hex.dec l, decInts ix, i.toInt? with
     | some line, some indices, some idx =>
